@@ -121,6 +121,7 @@ type Exec struct {
 	evaluating  *thread // the thread whose enabledness is being computed (it is not its own partner)
 	Rendezvous  int
 	usedRW      []*RWMutex
+	usedPools   []*Pool
 }
 
 var active *Exec
@@ -388,6 +389,10 @@ func Run(o Options, body func()) (e *Exec) {
 			m.writer, m.readers = false, 0
 			e.LeakedLocks++
 		}
+	}
+	// pooled objects do not survive into the next execution (every execution starts from the same state)
+	for _, p := range e.usedPools {
+		p.items = nil
 	}
 	return e
 }
@@ -765,6 +770,47 @@ func (w *WaitGroup) Wait() {
 		return
 	}
 	hook(pending{kind: opWait, label: "wg-wait", wg: w})
+}
+
+// Pool replaces sync.Pool. Get and Put are scheduling points. A pooled object may or may not still be there
+// when Get is called (the runtime empties pools at will): with something pooled, Get asks the explorer whether
+// it hands out the most recently pooled object (answer 0) or behaves as if the pool had been emptied (answer 1).
+type Pool struct {
+	New   func() any
+	items []any
+	real  sync.Pool
+}
+
+func (p *Pool) Get() any {
+	if active == nil {
+		p.real.New = p.New
+		return p.real.Get()
+	}
+	hook(pending{kind: opPoint, label: "pool-get"})
+	if n := len(p.items); n > 0 && active.choose(2, "pool-keeps-object") == 0 {
+		x := p.items[n-1]
+		p.items = p.items[:n-1]
+		return x
+	}
+	if p.New != nil {
+		return p.New()
+	}
+	return nil
+}
+
+func (p *Pool) Put(x any) {
+	if active == nil {
+		p.real.Put(x)
+		return
+	}
+	hook(pending{kind: opPoint, label: "pool-put"})
+	if x == nil {
+		return
+	}
+	if len(p.items) == 0 {
+		active.usedPools = append(active.usedPools, p)
+	}
+	p.items = append(p.items, x)
 }
 
 var timeBase = time.Date(2026, 1, 1, 0, 0, 0, 0, time.UTC)
